@@ -810,6 +810,19 @@ class CallMixin:
             return self.new_list_parts((PreSeq(f"sorted({p.path})", p.spec),))
         raise Unsupported("sorted of mixed sequence")
 
+    def bi_enumerate(self, args, kwargs):
+        from .values import EnumPart
+        parts = self.iter_parts(args[0])
+        start = args[1].v if len(args) > 1 and isinstance(args[1], K) else (kwargs.get("start").v if isinstance(kwargs.get("start"), K) else 0)
+        out, i = [], start
+        for p in parts:
+            if isinstance(p, Elems):
+                out.append(Elems(tuple(Tu((Elems((K(i + k), it)),)) for k, it in enumerate(p.items))))
+                i += len(p.items)
+            else:
+                out.append(EnumPart(p))
+        return Tu(tuple(out))
+
     def bi_zip(self, args, kwargs):
         cols = []
         for a in args:
